@@ -17,12 +17,16 @@
 (*                 generation                                              *)
 (*   Retire        a cleaning pass drops the oldest generation: its size   *)
 (*                 leaves the account, the entries that live in it die     *)
+(*   Release(c) / ReleaseBuckets   a cache is released; the cleaner drops  *)
+(*                 released caches from its list (RelSnap / RelStore: the  *)
+(*                 same from a list read before - deliberately wrong)      *)
 (* Invariants: a registered cache follows the last generation, hence what  *)
-(* the cleaner accounts equals what the live entries hold.                 *)
+(* the cleaner accounts equals what the live entries hold; a live cache    *)
+(* stays in the bucket list.                                               *)
 (***************************************************************************)
 EXTENDS Integers, Sequences, FiniteSets, TLC, Json
 
-CONSTANTS C, MaxG, MaxLoads, RegAtomic
+CONSTANTS C, MaxG, MaxLoads, RegAtomic, RelAtomic
 
 VARIABLES gens,      \* generations the cleaner sums over (sequence, oldest first)
           last,      \* the cleaner's last generation
@@ -30,41 +34,60 @@ VARIABLES gens,      \* generations the cleaner sums over (sequence, oldest firs
           cgen,      \* cache -> its current generation (0 = none yet)
           rd,        \* cache -> generation read by a registration in progress (0 = none)
           ents,      \* live entries: set of [c, g, n]
+          reg,       \* caches whose registration has completed
+          gone,      \* caches that were released (Cache.Release)
+          snap,      \* ReleaseBuckets in two steps (RelAtomic = FALSE): the bucket list as it was read; {0} = none
           loads, hist
-vars == <<gens, last, buckets, cgen, rd, ents, loads, hist>>
+vars == <<gens, last, buckets, cgen, rd, ents, reg, gone, snap, loads, hist>>
 H(op, c) == hist' = Append(hist, [op |-> op, c |-> c])
 SeqSet(s) == {s[i] : i \in 1..Len(s)}
 
 Init == /\ gens = <<1>> /\ last = 1 /\ buckets = {} /\ cgen = [c \in C |-> 0] /\ rd = [c \in C |-> 0]
-        /\ ents = {} /\ loads = 0 /\ hist = <<>>
+        /\ ents = {} /\ reg = {} /\ gone = {} /\ snap = {0} /\ loads = 0 /\ hist = <<>>
 
 Register(c) == /\ RegAtomic /\ c \notin buckets /\ rd[c] = 0
                /\ cgen' = [cgen EXCEPT ![c] = last] /\ buckets' = buckets \cup {c}
-               /\ H("register", c) /\ UNCHANGED <<gens, last, rd, ents, loads>>
+               /\ reg' = reg \cup {c}
+               /\ H("register", c) /\ UNCHANGED <<gens, last, rd, ents, gone, snap, loads>>
 RegRead(c) == /\ ~RegAtomic /\ c \notin buckets /\ rd[c] = 0
               /\ rd' = [rd EXCEPT ![c] = last] /\ buckets' = buckets \cup {c}
-              /\ H("regread", c) /\ UNCHANGED <<gens, last, cgen, ents, loads>>
+              /\ H("regread", c) /\ UNCHANGED <<gens, last, cgen, ents, reg, gone, snap, loads>>
 RegSet(c) == /\ ~RegAtomic /\ rd[c] # 0
              /\ cgen' = [cgen EXCEPT ![c] = rd[c]] /\ rd' = [rd EXCEPT ![c] = 0]
-             /\ H("regset", c) /\ UNCHANGED <<gens, last, buckets, ents, loads>>
+             /\ reg' = reg \cup {c}
+             /\ H("regset", c) /\ UNCHANGED <<gens, last, buckets, ents, gone, snap, loads>>
 Rotate == /\ last < MaxG
           /\ last' = last + 1 /\ gens' = Append(gens, last + 1)
           /\ cgen' = [c \in C |-> IF c \in buckets THEN last + 1 ELSE cgen[c]]
-          /\ H("rotate", 0) /\ UNCHANGED <<buckets, rd, ents, loads>>
+          /\ H("rotate", 0) /\ UNCHANGED <<buckets, rd, ents, reg, gone, snap, loads>>
 Load(c) == /\ cgen[c] # 0 /\ loads < MaxLoads
            /\ ents' = ents \cup {[c |-> c, g |-> cgen[c], n |-> loads + 1]} /\ loads' = loads + 1
-           /\ H("load", c) /\ UNCHANGED <<gens, last, buckets, cgen, rd>>
+           /\ c \notin gone
+           /\ H("load", c) /\ UNCHANGED <<gens, last, buckets, cgen, rd, reg, gone, snap>>
 Retire == /\ Len(gens) > 1
           /\ gens' = Tail(gens) /\ ents' = {e \in ents : e.g # Head(gens)}
-          /\ H("retire", 0) /\ UNCHANGED <<last, buckets, cgen, rd, loads>>
-Next == (\E c \in C : Register(c) \/ RegRead(c) \/ RegSet(c) \/ Load(c)) \/ Rotate \/ Retire
+          /\ H("retire", 0) /\ UNCHANGED <<last, buckets, cgen, rd, reg, gone, snap, loads>>
+\* Cache.Release: the cache gives its entries up; Cleaner.ReleaseBuckets then drops released caches from the list -
+\* under the cleaner's mutex in one step, or (RelAtomic = FALSE, deliberately wrong) from a list read earlier
+Release(c) == /\ c \in reg /\ c \notin gone /\ gone' = gone \cup {c} /\ ents' = {e \in ents : e.c # c}
+              /\ H("release", c) /\ UNCHANGED <<gens, last, buckets, cgen, rd, reg, snap, loads>>
+ReleaseBuckets == /\ RelAtomic /\ buckets \cap gone # {} /\ buckets' = buckets \ gone
+                  /\ H("relbuckets", 0) /\ UNCHANGED <<gens, last, cgen, rd, ents, reg, gone, snap, loads>>
+RelSnap == /\ ~RelAtomic /\ snap = {0} /\ buckets \cap gone # {} /\ snap' = buckets
+           /\ H("relsnap", 0) /\ UNCHANGED <<gens, last, buckets, cgen, rd, ents, reg, gone, loads>>
+RelStore == /\ ~RelAtomic /\ snap # {0} /\ buckets' = snap \ gone /\ snap' = {0}
+            /\ H("relstore", 0) /\ UNCHANGED <<gens, last, cgen, rd, ents, reg, gone, loads>>
+Next == (\E c \in C : Register(c) \/ RegRead(c) \/ RegSet(c) \/ Load(c) \/ Release(c)) \/ Rotate \/ Retire
+        \/ ReleaseBuckets \/ RelSnap \/ RelStore
 Spec == Init /\ [][Next]_vars
 
 Accounted == Cardinality({e \in ents : e.g \in SeqSet(gens)})
 Live == Cardinality(ents)
 AccountedEqualsLive == Accounted = Live
 FollowsLast == \A c \in buckets : (rd[c] = 0 /\ cgen[c] # 0) => cgen[c] = last
+\* every live cache stays under the cleaner's management until it is released
+LiveCachesManaged == \A c \in reg \ gone : c \in buckets
 \* every behaviour of the atomic design, for the replay on the real cleaner
-View == <<gens, last, buckets, cgen, rd, ents, loads>>
+View == <<gens, last, buckets, cgen, rd, ents, reg, gone, snap, loads>>
 Emit == (Len(hist) < 6) \/ PrintT(<<"CASE", ToJson([hist |-> hist])>>)
 =============================================================================
